@@ -165,12 +165,31 @@ def contains_yield(node: ast.AST) -> bool:
 class Member:
     name: str
     owner: "ClassInfo"
-    func: ast.FunctionDef | None = None  # plain / class / static method
-    getter: ast.FunctionDef | None = None
-    setter: ast.FunctionDef | None = None
+    func_raw: ast.FunctionDef | None = None  # plain / class / static method, as written
+    getter_raw: ast.FunctionDef | None = None
+    setter_raw: ast.FunctionDef | None = None
     deleter: ast.FunctionDef | None = None
     attr: ast.stmt | None = None  # class-level assignment
     decorators: list[str] = field(default_factory=list)
+
+    def _view(self, kind: str):
+        """the definition with new private helpers expanded and locals in canonical names (what every rule sees)"""
+        raw = getattr(self, kind + "_raw")
+        if raw is None:
+            return None
+        return Func(self.owner.module, f"{self.owner.name}.{self.name}", raw, self.owner, kind).node
+
+    @property
+    def func(self):
+        return self._view("func")
+
+    @property
+    def getter(self):
+        return self._view("getter")
+
+    @property
+    def setter(self):
+        return self._view("setter")
 
     @property
     def is_property(self) -> bool:
@@ -399,15 +418,15 @@ class Program:
                 mem = ci.members.setdefault(s.name, Member(s.name, ci))
                 mem.decorators.extend(decos)
                 if any(d in ("property", "cached_property", "functools.cached_property") for d in decos):
-                    mem.getter = s
+                    mem.getter_raw = s
                 elif any(d.endswith(".setter") for d in decos):
-                    mem.setter = s
+                    mem.setter_raw = s
                 elif any(d.endswith(".deleter") for d in decos):
                     mem.deleter = s
                 elif any(d.endswith(".getter") for d in decos):
-                    mem.getter = s
+                    mem.getter_raw = s
                 else:
-                    mem.func = s
+                    mem.func_raw = s
             elif isinstance(s, ast.Assign):
                 for t in s.targets:
                     if isinstance(t, ast.Name):
